@@ -405,7 +405,7 @@ PROPS["C18"] = dict(
          "intermediate value after a later filter, 8 kinds of scope writes to a name that exists in the context, nested data behind "
          "attributes; each case rendered twice with the SAME context value: both outputs equal the model's, deep snapshot of the "
          "caller's data (incl. the elements between len and cap) unchanged; the same filter on two values of one shape with both "
-         "results alive (sets / nested / array); merge with 49 argument pairs of mixed kinds (any outcome, data unchanged)",
+         "results alive (sets / nested / array); merge with 49 argument pairs of mixed kinds (any outcome, data unchanged); data long (forty strings in descending order)",
     assumptions=["values are immutable in the reference semantics, so Snapshot' = Snapshot is the specification; the verdict is an "
                  "observation of the real code (deep snapshot), hence level exploration",
                  "what join / last / sort / reverse / slice do to a map is not stated: maps only get keys, default, first, merge"],
@@ -447,7 +447,7 @@ PROPS["C05"] = dict(
          "names and strings x 40 tag forms with a name slot or a quoted-operand slot; dec: "
          "truncation at every offset, 7 boundary values in every length field and 3 changes of every byte of 3 valid encodings. "
          "Verdict: no panic, no hang (5 s, re-run alone with 50 s), no process death, and the engine still renders a nested probe "
-         "(page -> include -> include -> macro call, inherited block) twice",
+         "(page -> include -> include -> macro call, inherited block) twice; integers at the ends of small tables (99 .. 101, -99 .. -101, 999, 1000, -999, -1000)",
     assumptions=["the verdict is observational (level exploration): the specification supplies the enumerated input spaces and the contract "
                  "(Ok or Err, engine usable afterwards); TLC checks that the reference decoder is total on the corruptions",
                  "a loop over range(1, 2^40) is excluded: a finite but enormous computation the template itself asks for"],
